@@ -23,7 +23,7 @@ CHECKS.update({
             "text": "halton() at EVERY index 1..2^16+2^13 for each of the first 40 primes against an integer reversed-digit reference (complete "
                     "enumeration in every run), and random (size, start, dimension) calls against exact rational arithmetic; prime cache "
                     "histories against trial division; sampler objects on a 2^-17 grid where the sequence index is decoded from the "
-                    "output, checking start range, gap-free continuation across batches, split == joint, and re-seed resets.",
+                    "output, checking start range, gap-free continuation across batches, split == joint, and re-seed resets. The dtype of the bases array handed to halton() is drawn (int8 ... uint64, float32/64).",
             "note": "exhaustive over the index x base domain of halton(); sampled over (seed, dimension, batch sizes) for sampler objects; tolerance half a grid step for snapped coordinates."},
     "C15": {"category": "exploration", "technique": "exhaustive enumeration of a value lattice + " + PBT + " against an independent ordered validator and exact-rational grid rule",
             "text": "Every specification with two bound sub-lists of length 0-2 over a 7-value lattice and precision lists over a "
@@ -75,7 +75,7 @@ CHECKS.update({
             "text": "Round-robin: the i-th batch over the whole life (across calibrate calls and checkpoint restores) comes from "
                     "position i mod n with that batch size; RL: first batch from a Halton bootstrap, later batches a subsequence of "
                     "the agent's choices over the supplied set; constructor accepts exactly one of samplers/scheduler. "
-                    "Rediscovered the constructor validation defect (fixed). A further sub-check runs two RL calibrations with their own schedulers at the same time in two threads and compares each with its solo run.",
+                    "Rediscovered the constructor validation defect (fixed). A further sub-check runs two RL calibrations with their own schedulers at the same time in two threads and compares each with its solo run. RL session lists include empty sessions (calibrate(0)) before and between the others.",
             "note": "RL runs use the real thread under the OS scheduler (interleavings are C10's subject)."},
     "C14": {"category": "exploration", "technique": PBT + " of calibrate() histories with scripted losses against an exact-rational rounding model",
             "text": "Loss scripts concentrated at 0.5*10^-p; batches executed per call, counters, verbose-independence and the restored "
@@ -123,7 +123,7 @@ CHECKS.update({
             "text": "The real calibrate loop and the real agent loop run as OS threads whose queue/flag/thread operations are schedule "
                     "points; for the small session lists of each tier EVERY schedule is executed (tens of thousands), larger scenarios "
                     "get Hypothesis-drawn choice vectors; each run is judged on learn/run correspondence, rewards, leftovers, deadlock "
-                    "(detected structurally) and cross-schedule equality of the outcome. Rediscovered the session-end protocol defect "
+                    "(detected structurally) and cross-schedule equality of the outcome; loss scripts cover improving, tied, worse, exact-zero, non-finite and 1e-10-relative improvements. Rediscovered the session-end protocol defect "
                     "in every schedule (fixed).",
             "note": "interleavings at synchronisation operations only; bounded runs (safety, not liveness); not a proof."},
 })
